@@ -4,5 +4,5 @@
 import sys
 sys.path[:0] = ["/repo/pulser-core", "/repo/pulser-simulation", "/verif"]
 from symx.replay import replay
-sys.exit(replay(check='checks.c07', kernel='seq', shape={'device': 'mock', 'channels': [('a', 'raman_global', None), ('b', 'raman_local', 'q0'), ('r', 'rydberg_global', None)], 'program': [['add', 'a', 'min-delay', 32, False], ['shift', [], 'digital'], ['add', 'b', 'no-delay', 16, True], ['add', 'b', 'min-delay', 16, False]]},
-                assignment={'ph0': -1440, 'phi1': -1, 'ph2': -1438, 'post2': -1, 'ph3': 2}, label='k2:not_before_last_shift_ref'))
+sys.exit(replay(check='checks.c07', kernel='seq', shape={'device': 'mock', 'channels': [('a', 'raman_global', None), ('b', 'raman_local', 'q1'), ('r', 'rydberg_global', None)], 'program': [['add', 'b', 'min-delay', 32, False], ['shift', ['q1'], 'digital'], ['shift', ['q0', 'q2'], 'digital'], ['add', 'a', 'no-delay', 16, False]]},
+                assignment={'ph0': 0, 'phi1': 1, 'phi2': 1, 'ph3': 0}, label='k2:not_before_last_shift_ref'))
